@@ -314,31 +314,44 @@ struct Tot {
     searches: AtomicU64,
 }
 
+/// Searches run with a halfmove clock of 98 / 99 in the FEN
+pub static LATE_CLOCK: std::sync::atomic::AtomicU64 = std::sync::atomic::AtomicU64::new(0);
+
 fn run_cases(rep: &Report, cases: &[Case], tot: &Tot, samples: &mut Vec<J>, max_attack_depth: u8) {
     // one job per (case, depth, kind)
-    let mut jobs: Vec<(usize, u8, bool)> = Vec::new();
+    // the same position late in a game: a halfmove clock of 99 (the mating move completes the
+    // fiftieth move) or 98 (the opponent's mating reply would): checkmate ends the game whatever
+    // the clock says, so the answers must be the same. Shallow depths only (the cost is the search).
+    let mut jobs: Vec<(usize, u8, bool, u32)> = Vec::new();
     for (i, c) in cases.iter().enumerate() {
         if c.attack_case() {
             for d in 1..=max_attack_depth {
-                jobs.push((i, d, true));
+                jobs.push((i, d, true, 0));
+                if d == 1 {
+                    jobs.push((i, d, true, 99));
+                }
             }
         }
         if c.defence_case() {
             for d in [2u8, 3] {
-                jobs.push((i, d, false));
+                jobs.push((i, d, false, 0));
             }
+            jobs.push((i, 2, false, 98));
         }
     }
-    let res: Vec<Option<String>> = par_map(&jobs, |&(i, d, attack)| {
+    let res: Vec<Option<String>> = par_map(&jobs, |&(i, d, attack, hm)| {
         if rep.saturated() {
             return None;
         }
         let c = &cases[i];
-        let fen = c.pos.fen4();
-        let b = match eng::board_of(&c.pos) {
+        let fen = if hm == 0 { c.pos.fen4() } else { c.pos.fen(hm, 80) };
+        let b = match if hm == 0 { eng::board_of(&c.pos) } else { eng::board_of_fen(&fen) } {
             Ok(b) => b,
             Err(_) => return None,
         };
+        if hm != 0 {
+            LATE_CLOCK.fetch_add(1, Ordering::Relaxed);
+        }
         tot.searches.fetch_add(1, Ordering::Relaxed);
         match check_search(c, &b, d, attack) {
             Ok(m) => Some(m),
@@ -353,7 +366,7 @@ fn run_cases(rep: &Report, cases: &[Case], tot: &Tot, samples: &mut Vec<J>, max_
             }
         }
     });
-    for ((i, d, attack), r) in jobs.iter().zip(res.iter()) {
+    for ((i, d, attack, _), r) in jobs.iter().zip(res.iter()) {
         if samples.len() < 6 && r.is_some() && (samples.len() % 2 == 0) == *attack {
             let c = &cases[*i];
             samples.push(
@@ -591,6 +604,7 @@ pub fn run(tier: &str, seed: u64, out: &str) {
         .set("states_with_mate_in_one", tot.attack.load(Ordering::Relaxed))
         .set("states_with_mixed_moves", tot.defence.load(Ordering::Relaxed))
         .set("fresh_engine_searches", searches)
+        .set("of_which_with_a_halfmove_clock_of_98_or_99", LATE_CLOCK.load(Ordering::Relaxed))
         .set("spaces", J::Arr(parts))
         .set("samples", J::Arr(samples))
         .set("exhaustive", false);
@@ -605,7 +619,8 @@ pub fn run(tier: &str, seed: u64, out: &str) {
 pub fn replay(fen: &str, depth: u8, attack: bool) -> i32 {
     let p = Pos::from_fen(fen).unwrap();
     let c = analyse(&p);
-    let b = eng::board_of(&p).unwrap();
+    // a FEN with counters is given to the engine as it is (late-clock cases)
+    let b = if fen.split_whitespace().count() >= 6 { eng::board_of_fen(fen).unwrap() } else { eng::board_of(&p).unwrap() };
     if (attack && !c.attack_case()) || (!attack && !c.defence_case()) {
         println!("REPLAY-OK C08 {} is not a case of this kind", fen);
         return 0;
